@@ -460,6 +460,9 @@ func (m *Machine) recordViolationWithModel(kind, label, where string) {
 	if !ok {
 		panic(pathAbort{"unsupported", label + " reached but no model for the path"})
 	}
+	if m.tag != "" {
+		label += " [" + m.tag + "]"
+	}
 	m.res.Violations = append(m.res.Violations, Violation{Label: label, Kind: kind, Model: mod, Where: where})
 }
 
